@@ -115,6 +115,76 @@ def find_cycle(edges):
     return None
 
 
+_CEL = {}
+
+
+def closure_element_lengths(prog):
+    """A closure handed to an adaptor of `slice.chunks_exact(n)` / `windows(n)` (n constant) receives slices of exactly n
+    items: {closure path: {('len', ('arg', 2)): (n, n)}}. Decided from the creating function's MIR: the adaptor call's receiver
+    is (a move of) the local the chunking call wrote, its closure argument is the local the closure aggregate wrote, and the
+    closure is created only there."""
+    if id(prog) in _CEL:
+        return _CEL[id(prog)]
+    out, sites = {}, {}
+    ADAPT = ("::map", "::for_each", "::filter_map", "::try_for_each", "::filter", "::all", "::any", "::flat_map", "::find_map")
+    for p, f in prog.fns.items():
+        chunked, clos, moves, consts = {}, {}, {}, {}
+        for b, i, st in f.stmts():
+            if st["s"] != "assign" or st["dst"]["p"]:
+                continue
+            if st.get("rv") == "agg" and st.get("ak") == "closure":
+                clos[st["dst"]["l"]] = st["def"]
+                sites[st["def"]] = sites.get(st["def"], 0) + 1
+            if st.get("rv") == "use" and st["a"].get("k") in ("move", "copy") and not st["a"]["pl"]["p"]:
+                moves[st["dst"]["l"]] = st["a"]["pl"]["l"]
+            if st.get("rv") == "use" and st["a"].get("k") == "const" and isinstance(st["a"].get("int"), int):
+                consts[st["dst"]["l"]] = st["a"]["int"]
+        for b, t in f.calls():
+            if callee_of(t) in ("core::mem::size_of", "std::mem::size_of") and not t["dest"]["p"] and t.get("targs") and isinstance(t["targs"][0].get("size"), int):
+                consts[t["dest"]["l"]] = t["targs"][0]["size"]
+        for b, t in f.calls():
+            name = callee_of(t)
+            kind = name.rsplit("::", 1)[-1]
+            if name.startswith("core::slice::<impl [T]>::") and kind in ("chunks_exact", "windows") and len(t["args"]) == 2 and not t["dest"]["p"]:
+                a1 = t["args"][1]
+                n = a1.get("int") if a1.get("k") == "const" else None
+                if n is None and a1.get("pl") and not a1["pl"]["p"]:
+                    l = a1["pl"]["l"]
+                    seen = set()
+                    while l in moves and l not in seen:
+                        seen.add(l)
+                        l = moves[l]
+                    n = consts.get(l)
+                if isinstance(n, int) and n > 0:
+                    chunked[t["dest"]["l"]] = n
+            if name.endswith("::into_iter") and len(t["args"]) == 1 and not t["dest"]["p"]:
+                a = t["args"][0].get("pl", {})
+                if a and not a.get("p") and a.get("l") in chunked:
+                    chunked[t["dest"]["l"]] = chunked[a["l"]]
+
+        def root(l):
+            seen = set()
+            while l in moves and l not in seen:
+                seen.add(l)
+                l = moves[l]
+            return l
+        for b, t in f.calls():
+            name = callee_of(t)
+            if not any(name.endswith(a) for a in ADAPT) or len(t["args"]) != 2:
+                continue
+            r = t["args"][0].get("pl", {})
+            c = t["args"][1].get("pl", {})
+            if not r or r.get("p") or not c or c.get("p"):
+                continue
+            rl, cl = root(r["l"]), root(c["l"])
+            if rl in chunked and cl in clos:
+                out.setdefault(clos[cl], []).append(chunked[rl])
+    # every place the closure is created hands it to such an adaptor, and all agree on n (a helper and its inlined copies)
+    res = {c: {("len", ("arg", 2)): (ns[0], ns[0])} for c, ns in out.items() if len(set(ns)) == 1 and sites.get(c) == len(ns)}
+    _CEL[id(prog)] = res
+    return res
+
+
 class PanicChecker:
     def __init__(self, chk, prog, rule="R-PANIC", allow=None, param_rng=None, exempt_macros=(), seeds=None):
         self.chk = chk
@@ -123,7 +193,11 @@ class PanicChecker:
         self.rule = rule
         self.allow = allow or {}
         self.param_rng = param_rng or {}
-        self.seeds = seeds or {}     # {fn path: {term: range}} stated input domains
+        self.seeds = dict(seeds or {})     # {fn path: {term: range}} stated input domains
+        for cpath, facts in closure_element_lengths(prog).items():
+            merged = dict(facts)
+            merged.update(self.seeds.get(cpath, {}))
+            self.seeds[cpath] = merged
         self.counts = {"functions": 0, "asserts": 0, "calls": 0, "partial": 0, "alloc": 0, "panic_calls": 0}
         self.unclassified = set()
 
